@@ -10,6 +10,8 @@
 // With -DVH_FUZZ the same check is exposed as a libFuzzer target.
 #pragma once
 #include <chrono>
+#include <csignal>
+#include <unistd.h>
 #include <cstdio>
 #include <cstdlib>
 #include <fstream>
@@ -45,6 +47,17 @@ namespace vh
         long arg = 0;                              // --size-arg (tier-dependent knob)
         bool verbose = false;
 
+        bool announced = false;
+        // replay mode: print the decoded case before the library is called, so that it is
+        // visible even if the call crashes or never returns
+        void announce()
+        {
+            if (verbose && !announced)
+            {
+                std::cout << "CASE " << desc << std::endl;
+                announced = true;
+            }
+        }
         void label(const std::string& l)
         {
             labels.push_back(l);
@@ -237,7 +250,18 @@ namespace vh
         std::set<std::string> known;
         long arg = 0;
         std::string current_path;
+        unsigned case_timeout = 0;  // seconds; 0 = no watchdog
     };
+    // A single small case normally takes milliseconds.  A case that is still running after
+    // `case_timeout` seconds ends the process with exit code 88 ("hang candidate"); the runner
+    // re-runs the saved input in fresh processes before anything is reported.
+    inline void on_case_alarm(int)
+    {
+        static const char msg[] = "\nCASE-TIMEOUT: the current case did not return within the watchdog limit\n";
+        ssize_t r = write(2, msg, sizeof msg - 1);
+        (void) r;
+        _exit(88);
+    }
     inline RunCfg& cfg()
     {
         static RunCfg c;
@@ -245,15 +269,26 @@ namespace vh
     }
 
     // Runs one case, updates statistics; returns the outcome.
+    inline bool& replay_verbose()
+    {
+        static bool v = false;
+        return v;
+    }
     inline Outcome run_one(const std::vector<uint8_t>& bytes, Ctx& c, bool count)
     {
         Stats& st = stats();
+        c.verbose = replay_verbose();
         c.known = cfg().known;
         c.arg = cfg().arg;
         if (!cfg().current_path.empty())
             write_file(cfg().current_path, bytes);
         vg::Src src(bytes);
         Outcome out = PASS;
+        if (cfg().case_timeout)
+        {
+            signal(SIGALRM, on_case_alarm);
+            alarm(cfg().case_timeout);
+        }
         try
         {
             check_case(src, c);
@@ -277,6 +312,8 @@ namespace vh
             st.v_kind = "unexpected-exception";
             st.v_detail = e.what();
         }
+        if (cfg().case_timeout)
+            alarm(0);
         if (count && !st.frozen)
         {
             st.evaluations++;
@@ -345,6 +382,8 @@ namespace vh
                 out = next();
             else if (a == "--size-arg")
                 cfg().arg = atol(next().c_str());
+            else if (a == "--case-timeout")
+                cfg().case_timeout = static_cast<unsigned>(atol(next().c_str()));
             else if (a == "--known")
             {
                 std::stringstream ss(next());
@@ -360,9 +399,10 @@ namespace vh
         {
             auto bytes = read_file(replay);
             Ctx c;
-            c.verbose = true;
+            replay_verbose() = true;
             Outcome o = run_one(bytes, c, true);
-            std::cout << "CASE " << c.desc << "\n";
+            if (!c.announced)
+                std::cout << "CASE " << c.desc << "\n";
             for (auto& [k, v] : c.known_hits)
                 std::cout << "KNOWN-MATCH " << k << " x" << v << "\n";
             if (o == VIOL)
